@@ -31,7 +31,7 @@ func newGen(p *Prog, fn *ssa.Function, con *Contract) *Gen {
 	g := &Gen{p: p, fn: fn, con: con, env: map[ssa.Value]*SV{}, layouts: map[string][]Comp{}, famSort: map[string]string{},
 		declFam: map[string]bool{}, typeTag: map[string]int{}, counts: map[string]int{}, specDecl: map[string]bool{},
 		strConsts: map[string]Val{}, closures: map[*ssa.MakeClosure]*ssa.MakeClosure{}, rangeIters: map[*ssa.Range]Val{},
-		pendingHavoc: map[string]bool{}, famLeaf: map[string]IntInfo{}, famDeclLine: map[string]int{}, axDone: map[string]bool{}}
+		pendingHavoc: map[string]bool{}, famLeaf: map[string]IntInfo{}, famDeclLine: map[string]int{}, axDone: map[string]bool{}, cellAddr: map[*ssa.Alloc]*Addr{}}
 	if con != nil {
 		g.mode = parseMode(con.Arith)
 	}
